@@ -427,4 +427,5 @@ def run(ctx):
         "R7.grant-only-on-terminal": "an endpoint that takes ownership of the event without having observed a terminal state races the other endpoint for the payload: delivered twice or dropped while being read",
         "R3.no-access-after-handover": "after the hand-over the other endpoint may free the storage; a later access reads a freed payload / waker",
         "R6.sibling-agreement": "set() and the sender's drop are the two ways the sender leaves; a step present in one and missing in the other loses the wake-up or the payload on that path",
+        "R4.release-discipline": "a receiver that goes away without final_poll (or without releasing after a terminal outcome) leaves a sent payload undelivered AND undestroyed",
     })
